@@ -378,7 +378,7 @@ pub fn run(tier: Tier) -> i32 {
     let samples = Samples::new(6);
     par_range(ctx.threads, cases.len(), |i| {
         ctx.eval(1);
-        let res = match crate::common::guarded(|| check(&cases[i])) {
+        let res = match crate::common::watched(|| serde_json::to_value(&cases[i]).unwrap(), || crate::common::guarded(|| check(&cases[i]))) {
             Ok(r) => r,
             Err((loc, msg)) => Some((format!("panic:{loc}"), format!("panicked at {loc}: {msg}; case {:?}", cases[i]))),
         };
